@@ -143,6 +143,10 @@ def main(run):
             vals = [rnd.randrange(-50, 51) for _ in range(d)]
         if typ in ("float", "np64", "np32") and shape in ("random", "negative"):
             vals = [v / 4 for v in vals]         # quarter steps stay exact in float32
+        if typ in ("float", "np64", "np32", "Q") and rnd.random() < 0.4:
+            scl = rnd.choice([2.0 ** -40, 2.0 ** -70, 2.0 ** 50])       # tiny / huge absolute scale (exact power of two)
+            vals = [(Q(v) * Q(scl) if typ == "Q" else v * scl) for v in vals]
+            shape += "-scaled"
         seed = rnd.randrange(2 ** 31)
         replay = {"driver": "IncrementalSage alpha=1 scripted loss", "type": typ, "values": vals, "seed": seed}
         try:
@@ -151,7 +155,7 @@ def main(run):
             run.other_error(f"C15:drive:{type(ex).__name__}:{str(ex)[:40]}")
             continue
         raw = e.importance_values
-        if sorted(float(tofrac(v)) for v in raw.values()) != sorted(float(v) for v in vals):
+        if sorted(float(tofrac(v)) for v in raw.values()) != sorted(float(tofrac(v)) for v in vals):
             run.other_error("driver-did-not-reach-target")      # harness problem, not a verdict
             continue
         run.see("driven", (typ, shape, d))
